@@ -14,8 +14,11 @@ RULE = ("cases: (planar graph, trace, any configuration, first width W>=1 and an
         "distinct = case JSON")
 ASSUMPTIONS = ["planar metric, InMemMap; graphs <= 12 nodes, traces <= 12 points",
                "snapshot predicate on the emitting layer of each column; 'live' = not stopped; expanded = delayed <= expand_now",
-               "open finding KF-C07-NE (with non-emitting states a pruned/widened run can be MORE probable than the unpruned run, or differ "
-               "from it at full width) is recognised only with non_emitting_states=True and only for those two clauses"]
+               "open findings recognised by signature + root-cause predicate only: KF-C07-NE (non-emitting states on: pruned-better / "
+               "pruned-longer / wide-differs with equal prefix), KF-C07-REACT (non-emitting on, widened run shorter than unpruned and a "
+               "postponed entry left in a non-emitting layer), KF-C07-AG (avoid_goingback on, non-emitting off, pruned-better, and the "
+               "same case with avoid_goingback off satisfies the clause)",
+               "ties: the upper bound counts values within 1e-9 relative as tied (repair F16); joint expansion is demanded for exactly equal values only"]
 TOLERANCES = {"logprob": 1e-9}
 BUDGET = {"quick": {"shards": 8, "examples": 450}, "thorough": {"shards": 16, "examples": 8000}}
 
